@@ -26,18 +26,21 @@ def _work(args):
         for k, dabs in enumerate(states):
             real = A.build(dabs, k % 2)
             steps, exc = [], ""
+            from harness.machine import time_limit, CallTimeout, CALL_LIMIT, exc_name
             try:
-                for n, s in enumerate(real.normalize()):
-                    steps.append(proj_diagram(s, A.names))
-                    if n + 1 >= MAX_STEPS:
-                        exc = "Truncated"
-                        break
-            except Exception as e:
-                exc = type(e).__name__
+                with time_limit(CALL_LIMIT):
+                    for n, s in enumerate(real.normalize()):
+                        steps.append(proj_diagram(s, A.names))
+                        if n + 1 >= MAX_STEPS:
+                            exc = "Truncated"
+                            break
+            except (Exception, CallTimeout) as e:
+                exc = exc_name(e)
             try:
-                nf, nfexc = proj_diagram(real.normal_form(), A.names), ""
-            except Exception as e:
-                nf, nfexc = EMPTY_OBS, type(e).__name__
+                with time_limit(CALL_LIMIT):
+                    nf, nfexc = proj_diagram(real.normal_form(), A.names), ""
+            except (Exception, CallTimeout) as e:
+                nf, nfexc = EMPTY_OBS, exc_name(e)
             f.write(json.dumps({"d": dabs, "steps": steps, "exc": exc, "nf": nf, "nfexc": nfexc}) + "\n")
     return len(states)
 
